@@ -321,7 +321,21 @@ def run_cases(prop, casefile, work, tag, timeout=3000):
     errors = []
     for (argv, outp), rc in zip(impl_cmds, rcs):
         if rc != 0:
-            errors.append("harness rc=%s on %s: %s" % (rc, os.path.basename(outp), open(outp + ".err").read()[-2000:]))
+            msg = "harness rc=%s on %s: %s" % (rc, os.path.basename(outp), open(outp + ".err").read()[-2000:])
+            if rc == 124:
+                # killed at the time limit: name the case that was running (the first one of the
+                # shard without an oracle verdict) so that the hang can be replayed
+                try:
+                    done = {ln.split(" ", 1)[0] for ln in open(outp, errors="replace") if " ORACLE " in ln}
+                    shard_texts = read_case_texts(argv[3])
+                    hung = [cid for cid in shard_texts if cid not in done]
+                    if hung:
+                        msg = ("the implementation did not finish case %s within the time limit of %d s "
+                               "(shard killed; the cases behind it were not run)\n%s\n%s"
+                               % (hung[0], timeout, shard_texts[hung[0]][:3000], msg))
+                except Exception:
+                    pass
+            errors.append(msg)
     if cfg.get("model_input", "cases") == "impl":
         model_cmds = [([MODEL, prop, s + ".impl"], s + ".model") for s in shards]
     elif cfg.get("model_input") == "both":
@@ -542,7 +556,7 @@ def main():
         kf_for_prop = {k["class"]: k for k in known.get("findings", []) if k["property"] == prop}
         for tag, cf in casefiles:
             texts = read_case_texts(cf)
-            impl, model, errors = run_cases(prop, cf, work, tag, timeout=cfg.get("timeout", {}).get(tier, 3000))
+            impl, model, errors = run_cases(prop, cf, work, tag, timeout=cfg.get("timeout", {}).get(tier, 900 if tier == "quick" else 3000))
             for e in errors:
                 broken.append("run: " + e)
             res = classify(prop, impl, model, cfg.get("model_input", "cases"))
